@@ -217,8 +217,18 @@ package server
 //@   loop 0 invariant forall(j, 0, rangeindex + 1, !entryMatches(n.allowips[j], clientIP))
 //@   ensures ret0 <==> (len(n.allowips) == 0 || exists(j, 0, len(n.allowips), entryMatches(n.allowips[j], clientIP)))
 
-// every non-blank configured entry is parsed into the list, or the whole list is rejected
+// every non-blank configured entry is parsed into the list (and nothing else is), or the whole list is rejected
+//@ pure trimS(s string) string
+//@ trusted strings.TrimSpace
+//@   params s
+//@   pure-call
+//@   ensures ret0 == trimS(s)
+//@ pure entryIs(e util.IPInfo, v string) bool = ite(cidrOK(v), e.isIPNet && e.ipNet.IP == cidrNet(v).IP && e.ipNet.Mask == cidrNet(v).Mask, !e.isIPNet && e.ip == ipOf(v))
 //@ func parseAllowIps
 //@   assigns \nothing
 //@   loop 0 invariant allowips == nil || fresh(allowips)
-//@   ensures case reject: ret1 != nil ==> ret0 == nil
+//@   loop 0 invariant case listed: forall(j, 0, rangeindex + 1, slen(trimS(allowedIP[j])) != 0 ==> entryOK(trimS(allowedIP[j])) && exists(k, 0, len(allowips), entryIs(allowips[k], trimS(allowedIP[j]))))
+//@   loop 0 invariant case only:   forall(k, 0, len(allowips), exists(j, 0, rangeindex + 1, slen(trimS(allowedIP[j])) != 0 && entryIs(allowips[k], trimS(allowedIP[j]))))
+//@   ensures case reject:  ret1 != nil ==> ret0 == nil && exists(j, 0, len(allowedIP), slen(trimS(allowedIP[j])) != 0 && !entryOK(trimS(allowedIP[j])))
+//@   ensures case listed:  ret1 == nil ==> forall(j, 0, len(allowedIP), slen(trimS(allowedIP[j])) != 0 ==> entryOK(trimS(allowedIP[j])) && exists(k, 0, len(ret0), entryIs(ret0[k], trimS(allowedIP[j]))))
+//@   ensures case only:    ret1 == nil ==> forall(k, 0, len(ret0), exists(j, 0, len(allowedIP), slen(trimS(allowedIP[j])) != 0 && entryIs(ret0[k], trimS(allowedIP[j]))))
